@@ -37,6 +37,10 @@ func runC14(c *Ctx) {
 	c.Rule("R14g", "sqlite restore: inside the closure returned by Snapshot every nil return is preceded by the loop that executes the clean-up statements (no shortcut that decides 'nothing to clean' from a partial view of the database)", 1)
 	c.Rule("R14i", "the context the deferred restore runs with is not one the same function bounded by a deadline (context.WithTimeout/WithDeadline assigned to that variable): the restore runs after all the work, so a deadline meant for an earlier step would expire it and leave the dev database dirty", 4)
 	c.Rule("R14k", "the deferred restore runs whatever the outcome: in the deferred closure (or helper) that invokes the restore function, every path from its entry to its exit passes the call of the restore function — it is not conditional on the function's error being nil; a run that failed half way is exactly the case in which the dev database holds leftovers", 4)
+	c.Rule("R14m", ruleTextReplayOnly, 3)
+	checkReplayOnly(c, "R14m")
+	c.Rule("R14n", ruleTextRestoreCascade, 3)
+	checkRestoreCascade(c, "R14n")
 	c.Rule("R14l", ruleTextSnapshotAccepts, 3)
 	checkSnapshotAccepts(c, "R14l")
 	c.Rule("R14j", "no context bounded by a deadline in a function of the command layer (assigned from context.WithTimeout/WithDeadline there) is handed to a call that can reach Snapshot through statically resolved module code: the restore deferred behind that Snapshot would run with the same, by then possibly expired, context (zero bounded contexts is a pass: the obligation list enumerates every bounded context found)", 0)
